@@ -211,3 +211,14 @@ package cty
 //@   loop 1 invariant (MapC<String~Unit>.ok (select $H<MapC<String~Unit>> declared))
 //@   loop 1 invariant (forall ((k String)) (! (= (select (MapC<String~Unit>.dom (select $H<MapC<String~Unit>> declared)) k) (exists ((k0 String)) (! (and (select $visited k0) (= (nfc k0) k)) :pattern ((select $visited k0))))) :pattern ((select (MapC<String~Unit>.dom (select $H<MapC<String~Unit>> declared)) k))))
 //@   loop 2 invariant (not (opt_undeclared atys optionals $i))
+//
+// WithoutOptionalAttributesDeep is not verified yet (assumed: the result is a well-formed type without
+// optional-attribute annotations that conforms to exactly what the receiver conforms to, and is the
+// receiver itself when there was nothing to strip).
+//@ func (cty.Type).WithoutOptionalAttributesDeep
+//@   trusted
+//@   requires (wf_ty t)
+//@   ensures (and (wf_ty result) (not (has_opt result)) (conforms result t) (conforms t result))
+//@   ensures (=> (not (has_opt t)) (= result t))
+//@   ensures (= (is_dyn_ty result) (is_dyn_ty t))
+//@   ensures (forall ((w cty.Type)) (! (= (conforms result w) (conforms t w)) :pattern ((conforms result w))))
